@@ -50,7 +50,7 @@ ASSUMPTIONS = [
     "which simulation does not decide",
     "the 'fresh generator' reference uses the same generator code under test (it is the definition of the input)",
 ]
-PROBES = ["explicit_reseed", "explicit_reseed_zero", "cross_process_reproducibility", "history_with_abandoned_pass", "history_with_probe", "from_random_parallel", "window_with_pole", "size_multiple_of_chunk", "tail_chunk", "from_random_with_stalled_peer_fault", "second_generator_alive", "draw_aborted_midway"]
+PROBES = ["explicit_reseed", "explicit_reseed_zero", "cross_process_reproducibility", "history_with_abandoned_pass", "history_with_probe", "from_random_parallel", "window_with_pole", "size_multiple_of_chunk", "tail_chunk", "from_random_with_stalled_peer_fault", "second_generator_alive", "draw_aborted_midway", "nonfinite_sample_rows"]
 REAL_VS_STUB = dict(
     real="yaw.randoms, RandomReader, Catalog.from_random and the whole creation pipeline, numpy Generator",
     stub="multiprocessing (sim.fakemp) for workers > 1; treecorr RNG/threads for patch_num; builtins.id (sim.identity)",
@@ -291,11 +291,39 @@ class Model:
             lo = (ra1 + 7.0) % 300.0
             dlo = min(max(-85.0, de0 - 5.0), 75.0)
             win = (lo, min(360.0, lo + max(1.0, 0.5 * width)), dlo, min(89.0, dlo + max(1.0, 0.25 * height)))
-        other = yaw.randoms.BoxRandoms(*win, seed=self.case["gen_seed"] + 17 + which)
+        kw = {}
+        if which >= 2:
+            # samples with non-finite entries in *different* rows of weights and redshifts: whatever the
+            # generator does with such rows (hand them out, drop them, refuse the sample), a drawn
+            # (weight, redshift) pair must be a row of the supplied sample
+            m = 12 + which
+            w = (np.arange(m) + 1) / 4.0
+            z = 0.05 + 0.9 * ((np.arange(m) * 7919) % 1009) / 1009.0
+            w[which] = np.nan
+            z[m - 2] = np.nan if which == 2 else np.inf
+            kw = dict(weights=w, redshifts=z)
+        try:
+            other = yaw.randoms.BoxRandoms(*win, seed=self.case["gen_seed"] + 17 + which, **kw)
+        except ValueError:
+            if kw:
+                return  # refusing a non-finite sample is an answer, too
+            raise
         self.others = (getattr(self, "others", []) + [other])[-2:]
         self.rec.probe("second_generator_alive")
         pts = other(n)
-        _check_output(dict(self.case, window=win, has_w=False, has_z=False), pts, "other generator")
+        _check_output(dict(self.case, window=win, has_w=False, has_z=False), pts[["ra", "dec"]] if kw else pts, "other generator")
+        if kw:
+            self.rec.probe("nonfinite_sample_rows")
+            rows = {(a.tobytes(), b.tobytes()) for a, b in zip(w, z)}
+            names = pts.dtype.names
+            if "weights" not in names or "redshifts" not in names:
+                raise HistoryViolation(dict(property=PROP, failing_rule="other generator", outcome="attributes_missing"), f"other generator: fields {names}")
+            bad = [(float(a), float(b)) for a, b in zip(pts["weights"], pts["redshifts"]) if (a.tobytes(), b.tobytes()) not in rows]
+            if bad:
+                raise HistoryViolation(
+                    dict(property=PROP, failing_rule="other generator", outcome="attributes_not_joint"),
+                    f"other generator (sample with non-finite entries in different rows): drawn pairs {bad[:3]} are not rows of the supplied sample",
+                )
 
     def op_reseed(self, which: int, n: int) -> None:
         """reseed(seed) on the used generator, then draw: must equal a fresh generator with that seed."""
